@@ -58,3 +58,6 @@ func (s *Syncer) VerifStartState() (listing, store, pass bool) { return s.startT
 // VerifSetLastSnapshotTime sets the time of the last own snapshot (drives the forced-snapshot interval).
 // Only to be called while the sync loop is parked at a yield point.
 func (s *Syncer) VerifSetLastSnapshotTime(t time.Time) { s.lastSnapshotTime = t }
+
+// VerifSetHostname replaces the host name used as the instance name when none is configured; it returns the old one.
+func VerifSetHostname(h string) (old string) { old, hostname = hostname, h; return old }
